@@ -597,10 +597,12 @@ class _Exporter:
         }
         sindent = _SINGLE_INDENT * indent
         if self.use_operators and node.op_type in ops:
-            return (
-                f"{sindent}{self._translate_onnx_var(node.output[0])} = "
-                f"{(f' {ops[node.op_type]} ').join(map(self._translate_onnx_var_ref, node.input))}"
-            )
+            output = self._translate_onnx_var(node.output[0])
+            operands = [self._translate_onnx_var_ref(x) for x in node.input]
+            if node.op_type == "Pow" and operands[0].startswith("-"):
+                # An inlined negative constant: python reads "-3.0 ** x" as "-(3.0 ** x)".
+                operands[0] = f"({operands[0]})"
+            return f"{sindent}{output} = {(f' {ops[node.op_type]} ').join(operands)}"
         callee_name = self._make_callee_name(
             node.domain, opsets[node.domain], node.op_type, node=True
         )
